@@ -10,7 +10,11 @@
    channel closed or not, any receive result, the same again for the second handleProgress call
    of the iteration, and the same again for every tick of the progress ticker that is served
    while the output channel is full and the client holds a message it cannot hand over:
-   [i_blocked it], any number of ticks); no bound on the length.
+   [i_blocked it], any number of ticks; and whether the connection dies silently at the message
+   boundary of this iteration: [i_dies it] - ReceiveMessage still returns its result, the
+   connection reports closed from then on and the connection manager reconnects at its NEXT call,
+   be that the next loop head, the second handleProgress of a timeout / keepalive reply, or a tick
+   served inside the blocked-output loop while the client holds the message); no bound on the length.
 
    This file holds only statements closed by [exact], their assumptions, and non-vacuity examples.
    Vocabulary (model/Client.v, proofs/ClientProofs.v, proofs/ClientProofs2.v):
@@ -84,24 +88,51 @@ Proof. exact crun_acks_data_independent. Qed.
 Print Assumptions C03_acks_never_from_data.
 
 (* ---------------- restart position ---------------- *)
-(* (a) every connection request of an iteration carries highestWalStart as it was at the loop
-   head - with one exception.
+(* (a) every connection request of an iteration made BEFORE its receive carries highestWalStart as
+   it was at the loop head, every one made AFTER it (second handleProgress of a timeout / keepalive
+   reply, ticks of the blocked-output loop) carries highestWalStart as updated by the received
+   event, [hi_ev (highest s) (i_ev it)] - a received COMMIT at w gives max (highest s) w: the end of
+   the last transaction whose COMMIT was RECEIVED, whether or not it could be handed downstream
+   yet.  A request after the receive issues START_REPLICATION only if the connection died at this
+   message boundary. *)
+Theorem C03_restart_lsn_request_split : forall s it s' o,
+  cstep s it = (s', o) -> stopped s = false -> i_pclosed it = false ->
+  exists pre post, o = pre ++ CRecv :: post /\ ~ In CRecv pre /\ ~ In CRecv post /\
+    (forall l f, In (CGetStart l f) pre -> l = highest s /\ (f = true -> conn_open s = false)) /\
+    (forall l f, In (CGetStart l f) post ->
+       l = hi_ev (highest s) (i_ev it) /\ (f = true -> i_dies it = true)).
+Proof. exact cstep_getstart_split. Qed.
+Print Assumptions C03_restart_lsn_request_split.
+
+(* the same without the split (any state, stopped or not): a request carries the loop-head value
+   - with one exception.
    STATEMENT CHANGE (blocked-output loop).  Before the loop was modelled this read
    [... -> l = highest s].  That is false now: handleXLogData advances highestWalStart to a
    received COMMIT BEFORE it enters the WriteLoop, so the GetConnWithStartLsn calls made by
    sendProgressStatus from the WriteLoop of that COMMIT carry the NEW value (witness:
-   C03_blocked_commit_request_carries_new_position).  Those requests never issue
-   START_REPLICATION (f = false: the connection is open), and every request that does issue it
-   carries the loop-head value: C03_restart_lsn_request_fresh. *)
+   C03_blocked_commit_request_carries_new_position).
+   STATEMENT CHANGE (silent connection death).  Those requests issue START_REPLICATION only if
+   the connection died at this message boundary (before [i_dies] existed: never, f = false). *)
 Theorem C03_restart_lsn_request : forall s it s' o l f,
   cstep s it = (s', o) -> In (CGetStart l f) o ->
   l = highest s \/
-  (f = false /\ exists w t, i_ev it = EXLog w (XCommit t) /\ i_blocked it <> [] /\ l = N.max (highest s) w).
+  (exists w t, i_ev it = EXLog w (XCommit t) /\ i_blocked it <> [] /\ l = N.max (highest s) w /\
+               (f = true -> i_dies it = true)).
 Proof. exact cstep_getstart. Qed.
 Print Assumptions C03_restart_lsn_request.
 
+(* STATEMENT CHANGE (silent connection death).  Before [i_dies] existed this read
+   [In (CGetStart l true) o -> l = highest s]; that literal statement is now false
+   (C03_restart_lsn_request_fresh_loop_head_value_refuted): when the connection dies at the
+   boundary of a COMMIT that is then held in the blocked-output loop, the tick's
+   sendProgressStatus reconnects with START_REPLICATION at the position of THAT COMMIT - which is
+   what the property asks for ("from exactly the end of the last transaction whose COMMIT was
+   received").  In terms of the received events: C03_restart_after_silent_death. *)
 Theorem C03_restart_lsn_request_fresh : forall s it s' o l,
-  cstep s it = (s', o) -> In (CGetStart l true) o -> l = highest s.
+  cstep s it = (s', o) -> In (CGetStart l true) o ->
+  l = highest s \/
+  (i_dies it = true /\ exists w t, i_ev it = EXLog w (XCommit t) /\ i_blocked it <> [] /\
+                                   l = N.max (highest s) w).
 Proof. exact cstep_getstart_fresh. Qed.
 Print Assumptions C03_restart_lsn_request_fresh.
 
@@ -130,26 +161,66 @@ Print Assumptions C03_restart_lsn_initial.
 
 (* run level.  [hi_spec 0 evs] folds the received events: COMMIT at w -> max, ErrorResponse
    answered by xlogpos x -> x, anything else -> unchanged.  In iteration k (= after [its1]) of a
-   client that is still running, every connection request — in particular every
-   START_REPLICATION — carries exactly hi_spec of the events received in iterations 0..k-1:
-   the end of the last transaction whose COMMIT was received, never later; after a recovery,
-   the server's reported position (then again the maximum with later COMMITs).  The last
-   conjunct places the iteration's outputs in the run.
-   STATEMENT CHANGE (blocked-output loop), see C03_restart_lsn_request: the requests made from
-   the WriteLoop of a COMMIT received in iteration k itself (never a START_REPLICATION: f = false)
-   carry hi_spec of the events 0..k, that COMMIT included; every START_REPLICATION (f = true)
-   carries hi_spec of the events 0..k-1 as before. *)
+   client that is still running, every connection request carries hi_spec of the events received
+   in iterations 0..k-1 - the end of the last transaction whose COMMIT was received, never later;
+   after a recovery, the server's reported position (then again the maximum with later COMMITs) -
+   except the requests made from the WriteLoop of a COMMIT received in iteration k itself, which
+   carry hi_spec of the events 0..k, that COMMIT included.  The last conjunct places the
+   iteration's outputs in the run.
+   STATEMENT CHANGE (blocked-output loop): the exception is new, see C03_restart_lsn_request.
+   STATEMENT CHANGE (silent connection death): such a request is a START_REPLICATION only if the
+   connection died at this message boundary; the former conjunct
+   [f = true -> l = hi_spec 0 (map i_ev its1)] is false in exactly that case and is replaced by
+   C03_restart_lsn_split / C03_restart_after_silent_death below. *)
 Theorem C03_restart_lsn : forall first its1 it its2 s' o l f,
   stopped (fst (crun first its1)) = false ->
   cstep (fst (crun first its1)) it = (s', o) ->
   In (CGetStart l f) o ->
   (l = hi_spec 0 (map i_ev its1) \/
-   (f = false /\ i_blocked it <> [] /\ (exists w t, i_ev it = EXLog w (XCommit t)) /\
-    l = hi_spec 0 (map i_ev (its1 ++ [it])))) /\
-  (f = true -> l = hi_spec 0 (map i_ev its1)) /\
+   (i_blocked it <> [] /\ (exists w t, i_ev it = EXLog w (XCommit t)) /\
+    l = hi_spec 0 (map i_ev (its1 ++ [it])) /\ (f = true -> i_dies it = true))) /\
   snd (crun first (its1 ++ it :: its2)) = snd (crun first its1) ++ o ++ snd (citers s' its2).
 Proof. exact crun_restart_lsn. Qed.
 Print Assumptions C03_restart_lsn.
+
+(* the strongest form, split at the receive of iteration k: before it every connection request
+   carries hi_spec of the events received in iterations 0..k-1, after it hi_spec of the events
+   0..k - ALWAYS the end of the last transaction whose COMMIT was received (or the recovery
+   position), as of the moment the request is made *)
+Theorem C03_restart_lsn_split : forall first its1 it s' o,
+  stopped (fst (crun first its1)) = false -> i_pclosed it = false ->
+  cstep (fst (crun first its1)) it = (s', o) ->
+  exists pre post, o = pre ++ CRecv :: post /\ ~ In CRecv pre /\ ~ In CRecv post /\
+    (forall l f, In (CGetStart l f) pre -> l = hi_spec 0 (map i_ev its1)) /\
+    (forall l f, In (CGetStart l f) post ->
+       l = hi_spec 0 (map i_ev (its1 ++ [it])) /\ (f = true -> i_dies it = true)).
+Proof. exact crun_restart_split. Qed.
+Print Assumptions C03_restart_lsn_split.
+
+(* the connection dies silently at the message boundary of iteration k: every START_REPLICATION
+   issued in that iteration after the receive (it can only be issued because of that death)
+   carries hi_spec of the events received so far INCLUDING the one just received - if that is a
+   COMMIT held in the blocked-output loop, replication is re-requested from the end of its
+   transaction, not from the previous one *)
+Theorem C03_restart_after_silent_death : forall first its1 it s' o,
+  stopped (fst (crun first its1)) = false -> i_pclosed it = false ->
+  cstep (fst (crun first its1)) it = (s', o) ->
+  exists pre post, o = pre ++ CRecv :: post /\ ~ In CRecv pre /\ ~ In CRecv post /\
+    (forall l, In (CGetStart l true) pre -> l = hi_spec 0 (map i_ev its1)) /\
+    (forall l, In (CGetStart l true) post ->
+       i_dies it = true /\ l = hi_spec 0 (map i_ev (its1 ++ [it]))).
+Proof. exact crun_restart_after_silent_death. Qed.
+Print Assumptions C03_restart_after_silent_death.
+
+(* ... and that reconnect does happen: COMMIT received, connection dies, output channel full, the
+   first tick finds the progress channel open: the next observation after the receive is
+   START_REPLICATION at max (highest s) w *)
+Theorem C03_silent_death_reconnects_at_held_commit : forall s it s' o w t vs r,
+  stopped s = false -> i_pclosed it = false -> i_ev it = EXLog w (XCommit t) -> i_dies it = true ->
+  i_blocked it = (vs, false) :: r -> cstep s it = (s', o) ->
+  exists post, o = head_pre s it ++ CRecv :: CGetStart (N.max (highest s) w) true :: post.
+Proof. exact cstep_silent_death_reconnects. Qed.
+Print Assumptions C03_silent_death_reconnects_at_held_commit.
 
 (* a stopped client emits nothing any more *)
 Theorem C03_stopped_is_silent : forall its s, stopped s = true -> citers s its = (s, []).
@@ -157,24 +228,28 @@ Proof. exact citers_stopped. Qed.
 Print Assumptions C03_stopped_is_silent.
 
 (* ---------------- START_REPLICATION only on a closed connection ---------------- *)
+(* STATEMENT CHANGE (silent connection death): "... or the connection died at this iteration's
+   message boundary" is new; finer: C03_restart_lsn_request_split *)
 Theorem C03_fresh_only_when_closed : forall s it s' o l,
-  cstep s it = (s', o) -> In (CGetStart l true) o -> conn_open s = false.
+  cstep s it = (s', o) -> In (CGetStart l true) o -> conn_open s = false \/ i_dies it = true.
 Proof. exact cstep_fresh. Qed.
 Print Assumptions C03_fresh_only_when_closed.
 
 (* and the manager loses its connection only by: shutdown, a receive error on a closed
-   connection, a dropped BEGIN (Close is called), recovery *)
+   connection, a dropped BEGIN (Close is called), recovery, or (STATEMENT CHANGE: new disjunct) the
+   connection dying at this message boundary *)
 Theorem C03_connection_closed_only_by : forall s it s' o,
   cstep s it = (s', o) -> conn_open s' = false ->
   stopped s' = true \/ i_ev it = EClosedErr \/
   (exists w t, i_ev it = EXLog w (XBegin t) /\ saw_commit s = false /\ first_iter s = false /\ In CClose o) \/
-  (exists x, i_ev it = EErrorResponse x).
+  (exists x, i_ev it = EErrorResponse x) \/
+  i_dies it = true.
 Proof. exact cstep_conn_closes. Qed.
 Print Assumptions C03_connection_closed_only_by.
 
 (* ---------------- non-vacuity ---------------- *)
 Definition c03_first : cev := EKeepalive 100 false false.
-Definition c03_it (tick : bool) (prog : list N) (e : cev) : citer := mkIter tick prog false e [] false [].
+Definition c03_it (tick : bool) (prog : list N) (e : cev) : citer := mkIter tick prog false e [] false [] false.
 
 (* a transaction whose COMMIT (position 500) is received while the progress channel delivers 150
    (an older transaction became durable): 150 is acknowledged, twice; 500 — a data position — is not *)
@@ -217,7 +292,7 @@ Proof. vm_compute. intuition. Qed.
    are acknowledged (sorted, each a delivered value, never the data position 500), THEN the COMMIT
    is forwarded; the client keeps running *)
 Definition c03_blocked_commit : citer :=
-  mkIter false [] false (EXLog 500 (XCommit "7")) [] false [([150], false); ([], false); ([120; 170], false)]%N.
+  mkIter false [] false (EXLog 500 (XCommit "7")) [] false [([150], false); ([], false); ([120; 170], false)]%N false.
 
 Example C03_blocked_send_nonvacuous :
   let s := fst (crun c03_first [c03_it false [] (EXLog 200 (XBegin "7"))]) in
@@ -240,7 +315,53 @@ Proof. vm_compute. intuition. Qed.
    of the tick before it is sent, the COMMIT is never forwarded, the client stops *)
 Example C03_blocked_channel_closed :
   let s := fst (crun c03_first [c03_it false [] (EXLog 200 (XBegin "7"))]) in
-  let it := mkIter false [] false (EXLog 500 (XCommit "7")) [] false [([150], false); ([160], true); ([170], false)]%N in
+  let it := mkIter false [] false (EXLog 500 (XCommit "7")) [] false [([150], false); ([160], true); ([170], false)]%N false in
   snd (cstep s it) = [CGetStart 0 false; CRecv; CGetStart 500 false; CSend 150; CClose; CStop] /\
   stopped (fst (cstep s it)) = true.
 Proof. vm_compute. split; reflexivity. Qed.
+
+(* ---------------- the connection dies silently at a message boundary ---------------- *)
+(* transaction 7 committed at 500, transaction 8 begun; the COMMIT of 8 at 700 is received, the
+   connection dies at that boundary, the output channel is full for one tick: the tick's status
+   update reconnects with START_REPLICATION at 700 - the end of the last transaction whose COMMIT
+   was received -, not at 500 (the value at the loop head); then the COMMIT is handed over *)
+Definition c03_death_prefix : list citer :=
+  [ c03_it false [] (EXLog 200 (XBegin "7")); c03_it false [] (EXLog 500 (XCommit "7"));
+    c03_it false [] (EXLog 600 (XBegin "8")) ].
+Definition c03_death_commit : citer :=
+  mkIter false [] false (EXLog 700 (XCommit "8")) [] false [([500], false)]%N true.
+
+Example C03_restart_after_silent_death_nonvacuous :
+  let s := fst (crun c03_first c03_death_prefix) in
+  stopped s = false /\ highest s = 500%N /\ i_dies c03_death_commit = true /\
+  hi_spec 0 (map i_ev (c03_death_prefix ++ [c03_death_commit])) = 700%N /\
+  snd (cstep s c03_death_commit) =
+    [CGetStart 500 false; CRecv; CGetStart 700 true; CSend 500; COut "COMMIT" "8" "8-1" 700] /\
+  conn_open (fst (cstep s c03_death_commit)) = true.
+Proof. vm_compute. repeat split. Qed.
+
+(* the former literal statement of C03_restart_lsn_request_fresh, refuted by that iteration *)
+Example C03_restart_lsn_request_fresh_loop_head_value_refuted :
+  ~ (forall s it s' o l, cstep s it = (s', o) -> In (CGetStart l true) o -> l = highest s).
+Proof.
+  intros H.
+  pose (s := fst (crun c03_first c03_death_prefix)).
+  assert (E : cstep s c03_death_commit = (fst (cstep s c03_death_commit), snd (cstep s c03_death_commit)))
+    by (destruct (cstep s c03_death_commit); reflexivity).
+  assert (I : In (CGetStart 700 true) (snd (cstep s c03_death_commit)))
+    by (vm_compute; right; right; left; reflexivity).
+  specialize (H _ _ _ _ _ E I). vm_compute in H. discriminate H.
+Qed.
+
+(* the death is noticed wherever the next connection request is made: with room downstream, at
+   the next loop head (START_REPLICATION at 700 there); at a timeout, by the second
+   handleProgress of the same iteration *)
+Example C03_silent_death_noticed_at_next_request :
+  let s := fst (crun c03_first c03_death_prefix) in
+  let dies_free := mkIter false [] false (EXLog 700 (XCommit "8")) [] false [] true in
+  snd (cstep s dies_free) = [CGetStart 500 false; CRecv; COut "COMMIT" "8" "8-1" 700] /\
+  conn_open (fst (cstep s dies_free)) = false /\
+  snd (cstep (fst (cstep s dies_free)) (c03_it false [] ENil)) = [CGetStart 700 true; CRecv] /\
+  snd (cstep s (mkIter false [] false ETimeout [] false [] true)) =
+    [CGetStart 500 false; CRecv; CGetStart 500 true; CSend 100].
+Proof. vm_compute. repeat split. Qed.
